@@ -10,6 +10,30 @@ CHECKS = {
  "C10": ("lockset dataflow on SSA (sets of lock configurations) + lock-identity + who-may-call on syscalls",
          "Decides the lock discipline that linearizability of the in-memory disk rests on, for every interleaving: each element read under the mutex (R/W), each element write under W, released on every exit including panics, the mutex is shared (not a per-call copy); the file disk transfers data only by pread/pwrite and has no mutable shared state. Level 'other'.",
          "Linearizability itself and kernel atomicity of pread/pwrite are not decided; sync.RWMutex is trusted.", "DESIGN.md §4 C10"),
+ "C11": ("path enumeration with branch facts (error/count result discipline), must-pass-through (fsync), unit-aware open-path rule",
+         "Decides for every path through every system call of the file disk that a failure cannot reach a normal return (error tested or returned; pread/pwrite count proven equal to the block size), that Barrier/Close pass through fsync/close of the disk's descriptor on every returning path, and that a successful open either resizes a regular file to numBlocks*BlockSize bytes or proved that size in bytes, with O_CREAT|O_RDWR and without O_TRUNC. Level 'other'.",
+         "Durability on hardware and crash recovery are not decided; documented syscall semantics trusted.", "DESIGN.md §4 C11"),
+ "C12": ("alias/provenance flow on SSA, must-facts (create-only-when-absent), sibling shape",
+         "Decides necessary structural clauses of the reference model for all histories: descriptors come from a fresh allocation, caller/returned byte slices never alias stored contents, Create updates nothing when the name exists, ReadAt returns buf[:n] of a fresh buffer from the requested offset, Link shares the inode, Delete removes only the directory entry, wrappers forward, AtomicCreate installs exactly the data. Level 'other'.",
+         "Equality with a reference model over all histories is not decided. One known finding (MemFs.Open shares the creator's descriptor).", "DESIGN.md §4 C12"),
+ "C13": ("protocol-order dominance + path enumeration, write-all loop idiom, flag and path-provenance checks",
+         "Decides on every normally returning path of the directory-backed AtomicCreate the order openat(staging) < write-all < fsync < renameat, every error checked, staging file starts empty, rename source is the staging path, staging path unique per call; and that the in-memory version installs a private complete copy under a fresh inode. Level 'other'.",
+         "Host-filesystem crash atomicity and rename atomicity are trusted, not decided.", "DESIGN.md §4 C13"),
+ "C14": ("lockset dataflow with interprocedural helper entry states, allocator freshness idiom, flag checks",
+         "Decides for every interleaving the lock discipline of the in-memory filesystem (all map reads/writes under its mutex, helpers only called with it held, released on every exit incl. panics), that the inode allocator is fresh (insert-only contents map, len+1), that DirFs.Create is a single O_CREAT|O_EXCL openat and DirFs has no in-process shared state. Level 'other'.",
+         "Linearizability against the model and kernel atomicity are not decided.", "DESIGN.md §4 C14"),
+ "C15": ("idiom recognition over the resolved program (delegation to encoding/binary.LittleEndian or explicit little-endian lane map)",
+         "Decides that each Put/Get is exactly a forwarded call of the matching LittleEndian method (or a verified lane idiom with refusal-before-write); with the documented contract of encoding/binary this gives little-endian framing and invertibility for every value and buffer. Level 'other'.",
+         "Trusted base: documented contract of encoding/binary.", "DESIGN.md §4 C15"),
+ "C16": ("idiom recognition + exhaustive two-valued CFG evaluation (Assume/Assert)",
+         "Decides canonical-decimal formatting of the uint64 parameter, delete-all MapClear (clear builtin), Assume/Assert panic iff the argument is false by exhaustive evaluation of their CFG for c in {true,false}, and the forwarding shape of WaitTimeout/NewProph/Sleep. Level 'other'.",
+         "WaitTimeout's timing and lock state live in another module and are timing dependent: not decided.", "DESIGN.md §4 C16"),
+ "C17": ("phi-structure analysis of the error flag, CFG reachability with edge filters (write gating), path enumeration (compare-before-write), provenance of the output path, table extraction of loader config and flag wiring",
+         "Decides that the exit status is non-zero iff some package failed (monotone flag, return only on flag false, every os.Exit non-zero), that every clean package is written and a failed one only under -ignore-errors, at path.Join(out, ImportToPath(pkg path)), unchanged files are not rewritten and changed ones are written by os.WriteFile, the loader uses -tags goose / Dir / unchanged patterns, and the partial file carries the declarations that translated. Level 'other'.",
+         "What go/packages matches and file-system effects are not decided.", "DESIGN.md §4 C17"),
+ "C18": ("regular-language equivalence (regexp/syntax -> NFA -> simultaneous subset construction), CFG facts for filters and emissions",
+         "Decides that both generators match exactly the same lines (language equivalence of the two regex literals and of their groups, name reconstruction), apply the same file filter, emit exactly one test per match with Fail iff the failing group is non-empty, and truncate the output file. Level 'other'.",
+         "Matches inside raw strings/block comments are a shared limitation of the line-regex approach: not decided.", "DESIGN.md §4 C18"),
 }
 
 NOT_APPLICABLE = {
